@@ -894,13 +894,17 @@ pub fn run(rep: &mut Report, histories: u64, replay: Option<u64>) {
         Some(s) => vec![s],
         None => (0..histories).map(|i| rep.seed.wrapping_mul(1_000_003).wrapping_add(i)).collect(),
     };
-    for s in seeds {
-        let r = std::panic::catch_unwind(|| run_history(s, 60));
+    crate::util::install_quiet_panic_hook();
+    let results = crate::util::par_map(seeds.len() as u64, |i| {
+        let s = seeds[i as usize];
+        (s, std::panic::catch_unwind(|| run_history(s, 60)).map_err(|p| (crate::util::panic_message(&p), crate::util::short_loc(&crate::util::last_panic_loc()))))
+    });
+    for (s, r) in results {
         match r {
             Ok((ops, Ok(trace), h)) => {
                 rep.count("operations_checked", ops as u64);
                 rep.case(h, ops >= 3);
-                if rep.samples.len() < 3 && ops >= 5 && ops <= 25 {
+                if rep.samples.len() < 3 && (5..=25).contains(&ops) {
                     rep.sample(json!({"history_seed": s, "ops": trace}));
                 }
             }
@@ -910,13 +914,12 @@ pub fn run(rep: &mut Report, histories: u64, replay: Option<u64>) {
                 let tail: Vec<&String> = trace.iter().rev().take(12).rev().collect();
                 rep.violation(
                     &format!("C16 layout-law {}", msg.split(':').next().unwrap_or("")),
-                    json!({"history_seed": s, "message": msg, "last_ops": tail, "replay": format!("vh C16 --replay-seed {s}")}),
+                    json!({"history_seed": s, "message": msg, "last_ops": tail, "replay_arg": s.to_string()}),
                 );
             }
-            Err(p) => {
+            Err((msg, loc)) => {
                 rep.case(s, true);
-                let msg = p.downcast_ref::<String>().cloned().or_else(|| p.downcast_ref::<&str>().map(|s| s.to_string())).unwrap_or_default();
-                rep.violation("C16 panic in image builder", json!({"history_seed": s, "panic": msg}));
+                rep.violation(&format!("C16 panic in image builder at {loc}"), json!({"history_seed": s, "panic": msg, "replay_arg": s.to_string()}));
             }
         }
     }
